@@ -121,7 +121,7 @@ def _agents_direct(seed, params, model_name: str):
             heartbeat_interval=_every(p, 1 + i),
             action_delay=p.lat(i),
         )
-        for i in range(3)
+        for i in range(p.count(0, 3, hi=10))
     ]
     for a in agents:
         _wire_actions(a, rec, agents)
@@ -157,7 +157,7 @@ def _mk_agents(model_name: str):
     def builder(seed, params):
         return _agents_direct(seed, params, model_name)
 
-    builder.__doc__ = f"Three agents ({model_name} decision model), positive action_delay and heartbeat, bursts of stimuli."
+    builder.__doc__ = f"counts[0] agents (default 3, {model_name} decision model), positive action_delay and heartbeat, bursts of stimuli."
     return builder
 
 
@@ -177,7 +177,7 @@ def _environment(seed, params, influence_name: str, graph_kind: str):
         influence_name
     ]
     models = list(_models().values())
-    n = 5
+    n = p.count(0, 5, lo=4, hi=12)  # the hand-made graph names a0..a3
     agents = [
         Agent(
             f"a{i}",
@@ -260,7 +260,7 @@ def environment_degroot_sparse(seed, params):
 def _population(seed, params, kind: str):
     p = P(params, seed)
     rec = Recorder("rec")
-    size = 8
+    size = p.count(0, 8, hi=12)  # 1 and 2 exercise the degenerate graph builders
     if kind == "uniform":
         pop = Population.uniform(size, decision_model=UtilityModel(_utility, temperature=0.3), graph_type="small_world", seed=seed)
     else:
@@ -313,3 +313,47 @@ def population_segments(seed, params):
 def population_segments_complete(seed, params):
     """Population.from_segments over a complete graph."""
     return _population(seed, params, "segments_complete")
+
+
+# ----------------------------------------------------------------------
+# degenerate configurations
+
+
+@scenario("behavior.degenerate_agents_and_empty_environment", "behavior")
+def degenerate_agents_and_empty_environment(seed, params):
+    """An Environment without agents (every stimulus factory fans out to nobody), one with a
+    single agent and an empty graph; agents without a decision model, without handlers, with
+    no / unknown choices, zero action_delay, heartbeat disabled; targeted stimuli at nobody."""
+    p = P(params, seed)
+    rec = Recorder("rec")
+    empty = Environment("env.empty", seed=seed)
+    solo_agent = Agent("solo", decision_model=UtilityModel(_utility), seed=seed, heartbeat_interval=_every(p, 0), action_delay=p.lat(1))
+    _wire_actions(solo_agent, rec)
+    solo = Environment("env.solo", agents=[solo_agent], influence_model=VoterModel(), seed=seed)
+    no_model = Agent("no_model", decision_model=None, seed=seed, heartbeat_interval=0.0, action_delay=p.lat(0))
+    no_handler = Agent("no_handler", decision_model=RuleBasedModel([], default_action=None), seed=seed, heartbeat_interval=_every(p, 2), action_delay=0.0)
+    instant = Agent("instant", decision_model=UtilityModel(_utility), seed=seed, heartbeat_interval=0.0, action_delay=0.0)
+    _wire_actions(instant, rec)
+    loose = [no_model, no_handler, instant]
+    arr = p.arrivals(6)
+    sim = make_sim([empty, solo, rec, *loose], p.end())
+    _first_heartbeats(sim, [solo_agent, *loose])
+    for i, t in enumerate(arr):
+        for env in (empty, solo):
+            k = i % 5
+            if k == 0:
+                e = broadcast_stimulus(at(t), env, "Promo", choices=None)
+            elif k == 1:
+                e = targeted_stimulus(at(t), env, [], "Coupon", choices=["buy"])
+            elif k == 2:
+                e = price_change(at(t), env, "w", 1.0, 1.0)
+            elif k == 3:
+                e = influence_propagation(at(t), env, "")
+            else:
+                e = policy_announcement(at(t), env, "p", "", valence=0.0)
+            sim.schedule(e)
+        for a in loose:
+            choices = [[], ["unknown_action"], ["buy", "wait"]][i % 3]
+            sim.schedule(ev(t, "Stimulus", a, i=i, choices=choices, valence=0.0))
+        sim.schedule(ev(t, "SocialMessage", no_model, topic="", opinion=0.0, credibility=0.0, knowledge=[]))
+    return Scenario(sim, {"env.empty": empty, "env.solo": solo, "rec": rec, "solo": solo_agent, **{a.name: a for a in loose}}, "behavior", True, len(arr) * 6)
